@@ -11,6 +11,8 @@ namespace TlxVerif.C01
 structure St where
   cfg : Option Cfg := none
   m : MSt := {}
+  a0 : Nat := 1            -- allocator instance held by register 0
+  a1 : Nat := 2
 
 /-! ### printing -/
 
@@ -37,6 +39,14 @@ def showLedger (l : Ledger) : String := s!"a={l.leafAlloc},{l.leafFree},{l.inner
 def showOptEnt (isMap : Bool) : Option Ent → String
   | some e => showEnt isMap e
   | none => "!"
+
+/-- ` <instance>:<+leaf>,<-leaf>,<+inner>,<-inner>` for every allocator instance something went through,
+ascending -/
+def showParts (parts : List (Nat × Ledger)) : String :=
+  let arenas := ((parts.map Prod.fst).eraseDups.toArray.qsort (· < ·)).toList
+  String.join (arenas.map fun a =>
+    let l := sumFor a parts
+    if l = {} then "" else s!" {a}:{l.leafAlloc},{l.leafFree},{l.innerAlloc},{l.innerFree}")
 
 def bit (b : Bool) : String := if b then "1" else "0"
 
@@ -143,7 +153,7 @@ def showOut (isMap : Bool) (op : Op) (before after : T) : MOut → String
 
 /-- the slot pairs instantiated by the harness -/
 def slotPairs : List (Nat × Nat) :=
-  [(4, 4), (5, 5), (6, 6), (7, 7), (8, 8), (16, 16), (4, 7), (7, 4), (5, 16), (16, 5)]
+  [(4, 4), (4, 5), (5, 4), (5, 5), (6, 6), (7, 7), (8, 8), (16, 16), (4, 7), (7, 4), (5, 16), (16, 5), (16, 4), (64, 21)]
 
 /-- `cfg <kind> <leaf> <inner> <binsearch> <order of register 0> [<order of register 1>]` -/
 def parseCfg (ts : List String) : Option (Cfg × Nat × Nat) :=
@@ -170,7 +180,7 @@ def step (s : St) (ts : List String) : St × String :=
     | some _ => (s, "bad-op")
     | none =>
       match parseCfg rest with
-      | some (c, m0, m1) => ({ cfg := some c, m := { m0 := m0, m1 := m1 } }, "cfg")
+      | some (c, m0, m1) => ({ cfg := some c, m := { m0 := m0, m1 := m1 }, a0 := 1, a1 := 2 }, "cfg")
       | none => (s, "bad-op")
   | _ =>
     match s.cfg with
@@ -179,14 +189,15 @@ def step (s : St) (ts : List String) : St × String :=
       match parseOp c.isMap ts with
       | none => (s, "bad-op")
       | some op =>
-        match stepOp c s.m op with
+        match stepA c { m := s.m, a0 := s.a0, a1 := s.a1 } op with
         | .bad => (s, "bad-op")
         | .ub => (s, "MODEL-UB")
-        | .ok (m', mo, lg) =>
-          let ret := showOut c.isMap op (s.m.get op.reg) (m'.get op.reg) mo
+        | .ok (s', mo, lg, parts) =>
+          let ret := showOut c.isMap op (s.m.get op.reg) (s'.m.get op.reg) mo
+          let st : St := { s with m := s'.m, a0 := s'.a0, a1 := s'.a1 }
           if op.mutating then
-            ({ s with m := m' },
-             s!"{ret} ; {showLedger lg} ; T0 {showTree c.isMap m'.t0} ; T1 {showTree c.isMap m'.t1}")
-          else ({ s with m := m' }, ret)
+            (st, s!"{ret} ; {showLedger lg} ; T0 {showTree c.isMap s'.m.t0} ; T1 {showTree c.isMap s'.m.t1}" ++
+                 s!" ; A={s'.a0},{s'.a1}{showParts parts}")
+          else (st, ret)
 
 end TlxVerif.C01
